@@ -927,6 +927,150 @@ def run_conc(seed, cfg_tcp: bool, pop_ops, mk, gate=None, until="stopped", polic
     return _finish(tr, _run(seed, body, policy=policy, change_points=change_points))
 
 
+def run_calls(seed, spec: dict, policy="pct", change_points=None, labels=None) -> Trace:
+    """layer D (oracle only): 1-3 managed caller threads — in the context itself or in a connected peer context — issue
+    blocking calls (rpc_timeout=None) through proxies while the main thread removes the object / stops the context.
+    `RpcObjectManager.handle_message` gets a yield point at every line (the window between the `_running` test and the push)."""
+    tr = Trace()
+    tr.obs_pending = ["calls", spec]
+
+    def body(w):
+        from harness import detsched as D
+        from qmi.core.context import QMI_Context
+        REC.world = w
+        if labels is not None:
+            orig_yp = w.sched.yield_point
+
+            def yp(label, *a, **k):
+                labels.append((w.sched.steps + 1, label))
+                return orig_yp(label, *a, **k)
+            w.sched.yield_point = yp
+        r = Runner1(w, True)
+        r.new()
+        ctx = r.ctx
+        o = r.do(["start", 0, 0])
+        for op in spec["pop"]:
+            r.do(op)
+        cli = None
+        if any(c["where"] == "peer" for c in spec["callers"]):
+            cli = QMI_Context("cli")
+            cli.start()
+            cli.connect_to_peer("c1", "localhost:%d" % PORT)
+        res = {"calls": [], "action": None, "setup": o, "steps0": w.sched.steps}
+
+        def mk_caller(c):
+            n = c["target"]
+            if c["where"] == "peer":
+                proxy = cli.get_rpc_object_by_name("c1." + NAMES[n])
+            else:
+                proxy = r.any_proxy(ctx, n)
+            out = []
+            res["calls"].append((c["where"], out))
+
+            def run():
+                for _ in range(c["ncalls"]):
+                    t0 = w.sched.now
+                    try:
+                        v = proxy.get_name()
+                        out.append(("ok" if v == NAMES[n] else f"wrong-value:{v!r}", w.sched.now - t0))
+                    except D.SchedAbort:
+                        out.append(("never-answered", None))
+                        raise
+                    except BaseException as e:  # noqa
+                        out.append((type(e).__name__, w.sched.now - t0))
+            return run
+        if policy == "pct":
+            # main gets the lowest priority of all threads that were not demoted: it performs remove()/stop() exactly when the
+            # thread running at the change point (a caller, the object's worker, the socket thread) is demoted below it,
+            # i.e. the sweep over change points places the action at every yield index of the call path
+            w.sched.main.prio = -0.5
+        threads = [w.spawn(mk_caller(c), "caller") for c in spec["callers"]]
+        try:
+            if spec["action"] == "stop":
+                ctx.stop()
+            else:
+                ctx.remove_rpc_object(r.any_proxy(ctx, spec["victim"]))
+            res["action"] = "ok"
+        except D.SchedAbort:
+            raise
+        except BaseException as e:  # noqa
+            res["action"] = _exc_s(e)
+        for t in threads:
+            t.join()
+        res["thr"] = thread_counts(REC.of(ctx))
+        # tidy up (must not hang either)
+        if cli is not None:
+            cli.stop()
+        if ctx._active:
+            ctx.stop()
+        res["thr_end"] = thread_counts(REC.of(ctx))
+        res["stray"] = stray_s()
+        res["steps"] = w.sched.steps
+        return res
+
+    from qmi.core.rpc import RpcObjectManager
+    out = _run(seed, body, policy=policy, change_points=change_points, trace_funcs=[RpcObjectManager.handle_message],
+               max_steps=60000)
+    tr.deadlock = out.deadlock or ("step budget exceeded" if out.budget else None)
+    tr.error = out.error
+    tr.calls = out.value
+    tr.steps = out.sched.steps
+    tr.partial = [(wh, list(o)) for wh, o in (getattr(out.value, "get", lambda *_: [])("calls") or [])] if out.value else None
+    return tr
+
+
+def oracle_calls(spec: dict, tr: Trace):
+    """every call ends promptly with its value or a delivery error; remove()/stop() return; nothing hangs"""
+    kinds = "+".join(sorted({c["where"] for c in spec["callers"]}))
+    if tr.deadlock is not None:
+        return [(f"calls:hang:{spec['action']}:{kinds}",
+                 f"a call through a proxy racing {spec['action']} was never answered (or {spec['action']} never returned): {tr.deadlock[:300]}", 0)]
+    res = tr.calls
+    bad = []
+    if res["action"] != "ok":
+        bad.append((f"calls:{spec['action']}-raises:{res['action'][4:]}", f"{spec['action']}() racing calls raised {res['action']}", 0))
+    for where, outs in res["calls"]:
+        for o, dt in outs:
+            if o not in ("ok", "QMI_MessageDeliveryException"):
+                bad.append((f"calls:outcome:{where}:{o.split(':')[0]}", f"call from {where} caller racing {spec['action']}: {o}", 0))
+            elif dt is not None and dt >= 1.0:
+                bad.append((f"calls:late:{where}", f"call from {where} caller answered after {dt} virtual seconds", 0))
+    if spec["action"] == "stop" and res["thr"] != (0, 0, 0):
+        bad.append(("calls:stop-leaves-threads", f"threads after stop() racing calls: {res['thr']}", 0))
+    if res["thr_end"] != (0, 0, 0) or res["stray"]:
+        bad.append(("calls:threads-left", f"threads at the end: {res['thr_end']}{res['stray']}", 0))
+    return bad
+
+
+def call_sweep_points(seed, spec: dict, stride: int):
+    """change points for one family: every yield index inside RpcObjectManager.handle_message (and the two after it) of the
+    undisturbed run, plus every `stride`-th index of the rest of the racing phase"""
+    labels = []
+    tr = run_calls(seed, spec, change_points=[], labels=labels)
+    if tr.error is not None:
+        raise tr.error
+    if tr.calls is None:
+        return tr, []
+    s0, n = tr.calls["steps0"], tr.steps
+    pts = set(range(s0, n + 2, max(1, stride)))
+    for i, lab in labels:
+        if i >= s0 and lab.startswith("line:handle_message"):
+            pts.update((i - 1, i, i + 1, i + 2))
+    return tr, sorted(p for p in pts if p >= s0)
+
+
+CALL_FAMILIES = [
+    {"callers": [{"where": "local", "target": 1, "ncalls": 3}], "action": "remove", "victim": 1},
+    {"callers": [{"where": "local", "target": 1, "ncalls": 3}], "action": "stop"},
+    {"callers": [{"where": "peer", "target": 1, "ncalls": 3}], "action": "remove", "victim": 1},
+    {"callers": [{"where": "peer", "target": 1, "ncalls": 3}], "action": "stop"},
+    {"callers": [{"where": "local", "target": 1, "ncalls": 2}, {"where": "peer", "target": 1, "ncalls": 2},
+                 {"where": "local", "target": 2, "ncalls": 2}], "action": "stop"},
+    {"callers": [{"where": "local", "target": 2, "ncalls": 2}, {"where": "peer", "target": 1, "ncalls": 2}], "action": "remove", "victim": 1},
+]
+CALL_POP = [["make", "rpc", 1, "a", 0, 0, "loop", 0], ["make", "instr", 2, "b-1", 0, 1, "loop", 0]]
+
+
 # ---------------------------------------------------------------------------
 # generators
 # ---------------------------------------------------------------------------
@@ -1344,10 +1488,14 @@ def run_case(case: dict) -> Trace:
         return run_conc(case["seed"], case["cfg_tcp"], case["pop"], case["mk"], gate=case.get("gate"),
                         until=case.get("until", "stopped"), policy=case.get("policy", "weighted"),
                         change_points=case.get("change_points"))
+    if k == "calls":
+        return run_calls(case["seed"], case["spec"], policy=case.get("policy", "pct"), change_points=case.get("change_points"))
     raise ValueError(case)
 
 
 def oracle(case: dict, tr: Trace):
+    if case["kind"] == "calls":
+        return oracle_calls(case["spec"], tr)
     return {"hist": oracle_history, "single": oracle_singleton, "conc": oracle_conc}[case["kind"]](tr)
 
 
@@ -1421,6 +1569,7 @@ class C12(Prop):
         "QMI_Instrument.release_rpc_object only warns: an instrument open at stop() keeps its transport open (modelled as is, not part of the statement)",
         "a stop handler raising a non-Exception BaseException aborts stop() (modelled as is: `stop` with `.base`; excluded from the oracle: the statement's 'raise' is read as Exception)",
         "stop ‖ make is modelled at lock granularity; outcomes are compared as sets (membership), not by trace refinement",
+        "calls racing remove()/stop() (the `_running` test and the push under `_stop_lock`) are not in the Lean model: explored schedules + oracle only (C01 models that path)",
     ]
 
     # -- helpers ----------------------------------------------------------------
@@ -1481,6 +1630,38 @@ class C12(Prop):
             res.failures.append(Failure(signature=sig, summary=f"{sig}: {det[:400]} | case={_short(small)}",
                                         replay={**small, "expect": sig}))
 
+    def _calls(self, res: Result, ctx: Ctx, seeds, stride: int, randoms: int, seed0: int) -> int:
+        """layer D: calls through proxies racing remove()/stop() (oracle only; no model lines)"""
+        n = 0
+        for fi, fam in enumerate(CALL_FAMILIES):
+            spec = dict(fam, pop=CALL_POP)
+            runs = []
+            for sd in seeds:
+                _tr, pts = call_sweep_points(seed0 + 10 * fi + sd, spec, stride)
+                runs += [{"kind": "calls", "seed": seed0 + 10 * fi + sd, "spec": spec, "policy": "pct", "change_points": [cp]} for cp in pts]
+            runs += [{"kind": "calls", "seed": seed0 + 1000 + 50 * fi + j, "spec": spec, "policy": "weighted"} for j in range(randoms)]
+            for case in runs:
+                tr = run_case(case)
+                if tr.error is not None:
+                    raise tr.error
+                n += 1
+                res.traces_validated += 1
+                res.count("scenarios_calls")
+                res.count(f"calls_family_{fam['action']}_" + "+".join(c["where"] for c in fam["callers"]))
+                if tr.calls is not None:
+                    for _wh, outs in tr.calls["calls"]:
+                        for o, _dt in outs:
+                            res.count("call_racing_outcome_" + o)
+                res.note_case(("calls", fi, case["seed"], tuple(case.get("change_points") or ())), nontrivial=True)
+                for sig, det, _i in oracle(case, tr):
+                    if self._seen.get(sig, 0) >= 1:
+                        self._seen[sig] += 1
+                        continue
+                    self._seen[sig] = 1
+                    res.failures.append(Failure(signature=sig, summary=f"{sig}: {det[:400]} | case={_short(case)}",
+                                                replay={**case, "expect": sig}))
+        return n
+
     def _diff(self, res: Result, batch: list) -> None:
         drv = LeanDriver(self.driver)
         lines, spans = [], []
@@ -1513,7 +1694,10 @@ class C12(Prop):
         res = Result(rule="layer A: random histories [ops before start] start(faults) [make/remove/get/call/open/close/task start/join/"
                           "stop handlers with valid, invalid, duplicate names and constructor / release / run faults] stop [ops after stop] probe; "
                           "layer B: the same through qmi.start/stop/context with TCP / UDP / unreachable-peer faults; layer C: stop ‖ make with the "
-                          "maker parked at each of 5 cut points until stop() has collected / returned, plus random schedules. After every op the "
+                          "maker parked at each of 5 cut points until stop() has collected / returned, plus random schedules; layer D (oracle "
+                          "only): 1-3 caller threads (local and from a peer context) calling with rpc_timeout=None while main runs remove()/stop(), "
+                          "line-level yield points in RpcObjectManager.handle_message, the action placed at every yield index of that window "
+                          "(PCT change-point sweep). After every op the "
                           "abstract state read from the real objects is compared with the model. Non-trivial = contains a stop, remove, failed "
                           "start or race; distinct by (kind, ops, faults, gate).")
         self._seen = {}
@@ -1546,6 +1730,8 @@ class C12(Prop):
                         "policy": "pct" if (g is None and rng.random() < 0.5) else "weighted"}
                 self._add(res, batch, case, run_case(case)); n += 1
         ctx.log(f"layer C done: {n} scenarios")
+        n += self._calls(res, ctx, seeds=range(ctx.scale(1, 3)), stride=ctx.scale(8, 2), randoms=ctx.scale(5, 40), seed0=seed0 + 500000)
+        ctx.log(f"layer D done: {n} scenarios")
         self._diff(res, batch)
         for case, tr in batch[:2] + [b for b in batch if b[0]["kind"] == "single"][:1] + [b for b in batch if b[0]["kind"] == "conc"][-1:]:
             res.sample({"case": _short(case), "lines": tr.lines[:12], "impl": tr.impl[:12]})
@@ -1594,6 +1780,8 @@ class C12(Prop):
             for sd in range(3):
                 case = {"kind": "single", "seed": seed0 + n, "ops": ops}
                 self._add(res, batch, case, run_case(case)); n += 1
+        # calls racing remove()/stop(): the action at every yield index of the call path, two priority assignments
+        self._calls(res, ctx, seeds=range(2), stride=1, randoms=20, seed0=seed0 + 900000)
         return res
 
     def replay(self, ctx: Ctx, rp: dict):
@@ -1621,6 +1809,10 @@ def i_prev_state(tr: Trace, ob):
 
 def _short(case: dict) -> str:
     c = dict(case)
+    if c.get("kind") == "calls":
+        sp = c["spec"]
+        return repr({"kind": "calls", "seed": c["seed"], "action": sp["action"], "callers": [(x["where"], x["target"], x["ncalls"]) for x in sp["callers"]],
+                     "policy": c.get("policy"), "change_points": c.get("change_points")})
     for key in ("ops", "pop"):
         if key in c:
             c[key] = [[(x if not (isinstance(x, str) and len(x) > 12) else x[:3] + "…") for x in (op if op[0] != "q" else ["q"] + list(op[1]))] for op in c[key]]
